@@ -285,6 +285,37 @@ func tuple(f *fn, idx int) []val {
 	panic("tuple index out of range")
 }
 
+// benign returns the first n-ary tuple on which Go's function is defined (so that a panic seen after
+// substituting one argument is due to the substitution).
+func benign(f *fn, n int) []val {
+	c := 1
+	for i := 0; i < n; i++ {
+		c *= len(f.params[i])
+	}
+	first := make([]val, n)
+	for i := 0; i < n; i++ {
+		first[i] = f.params[i][0]
+	}
+	if n < f.min {
+		return first
+	}
+	off := 0
+	for k := f.min; k < n; k++ {
+		cc := 1
+		for i := 0; i < k; i++ {
+			cc *= len(f.params[i])
+		}
+		off += cc
+	}
+	for idx := 0; idx < c && idx < 500; idx++ {
+		a := tuple(f, off+idx)
+		if f.gof(a).kind == 'v' {
+			return a
+		}
+	}
+	return first
+}
+
 func describe(f *fn, a []val) string {
 	return fmt.Sprintf("%s(%s)", f.target(), strings.Join(toks(a), ", "))
 }
@@ -379,7 +410,7 @@ func Check(r *ev.Run, replay string) {
 		return
 	}
 	r.Assumptions = []string{
-		"argument pools are fixed boundary values per parameter type (see rule); each parameter is fed values of the type(s) its conversion helper accepts - wrong-typed arguments are not enumerated",
+		"argument pools are fixed boundary values per parameter type (see rule); each parameter is fed values of the type(s) its conversion helper accepts; wrong-typed arguments and wrong argument counts are only swept one substitution at a time and judged by 'no Go panic' alone",
 		"where Go's function has no counterpart for an argument (|MinInt64| for an int abs, float->int conversion of NaN/Inf/1e308 in pow10, contains_rune/index_rune/index_byte with an argument that is not exactly one valid character/byte) the oracle only demands 'no Go panic'",
 		"string-or-byte_slice round trips through byte codecs count as equal when risor's Equals holds in either direction (byte_slice == string holds, string == byte_slice does not; symmetry belongs to C15)",
 		"json round trip is judged on JSON-representable values only: nil, bool, int, finite float, string, list, map (byte_slice, NaN, Inf are used only for the codec/module agreement check)",
@@ -398,7 +429,7 @@ func Check(r *ev.Run, replay string) {
 		fmt.Fprintf(os.Stderr, "c19 timing: partW %.1fs\n", time.Since(t0).Seconds())
 	}
 	partC(r, stride)
-	r.Set("rule", fmt.Sprintf("W: every function/method discovered on modules strings, strconv, math, bytes, base64, filepath, regexp (+regexp object), json.valid, string methods, byte_slice methods x ALL argument tuples over the per-parameter pools (strings %d values incl. invalid UTF-8, NUL, 300 x 'a'; ints %d incl. Min/MaxInt64; floats %d incl. NaN, +-Inf, -0, denormal; byte slices %d; bytes-like %d; string lists %d; numeric strings %d; paths %d; globs %d; regexp patterns %d; base64 inputs %d) for every accepted arity (up to 4 parameters), each through the object API and every %d-th (thorough: every) tuple through generated scripts; compared with the direct Go call (floats bit-wise, NaN==NaN). C: codecs base64/base32/hex/gzip/urlquery x all pool values, json x every value of depth <= 2 (lists/maps of width <= 2 over 35 scalars and, at depth 2, over the 2569 values of depth <= 1; quick: the second element at depth 2 ranges over the scalars only), object route all, script route all up to depth 1 and every 5th (thorough: 16th) at depth 2; malformed = all strings of length <= 4 over {A,=,!,\\xff,%%,z} per codec as string and as byte_slice, plus codec-specific sets (json: length <= 4 over 10 JSON symbols; base32: length <= 8 over {A,7,=,!}; gzip: every prefix and every single-byte substitution of a valid stream); json codec vs json.marshal/unmarshal on all of those. distinct = distinct (target, expected result) pairs",
+	r.Set("rule", fmt.Sprintf("W: every function/method discovered on modules strings, strconv, math, bytes, base64, filepath, regexp (+regexp object), json.valid, string methods, byte_slice methods x ALL argument tuples over the per-parameter pools (strings %d values incl. invalid UTF-8, NUL, 300 x 'a'; ints %d incl. Min/MaxInt64; floats %d incl. NaN, +-Inf, -0, denormal; byte slices %d; bytes-like %d; string lists %d; numeric strings %d; paths %d; globs %d; regexp patterns %d; base64 inputs %d) for every accepted arity (up to 4 parameters), each through the object API and every %d-th (thorough: every) tuple through generated scripts; compared with the direct Go call (floats bit-wise, NaN==NaN); plus a single-substitution sweep of wrong-typed arguments / wrong argument counts (oracle: no Go panic). C: codecs base64/base32/hex/gzip/urlquery x all pool values, json x every value of depth <= 2 (lists/maps of width <= 2 over 35 scalars and, at depth 2, over the 2569 values of depth <= 1; quick: the second element at depth 2 ranges over the scalars only), object route all, script route all up to depth 1 and every 5th (thorough: 16th) at depth 2; malformed = all strings of length <= 4 over {A,=,!,\\xff,%%,z} per codec as string and as byte_slice, plus codec-specific sets (json: length <= 4 over 10 JSON symbols; base32: length <= 8 over {A,7,=,!}; gzip: every prefix and every single-byte substitution of a valid stream); json codec vs json.marshal/unmarshal on all of those. distinct = distinct (target, expected result) pairs",
 		len(poolS), len(poolI), len(poolF), len(poolB), len(poolBL), len(poolSL), len(poolNumStr), len(poolPath), len(poolGlob), len(poolPat), len(poolB64In), stride))
 }
 
@@ -586,6 +617,45 @@ func partW(r *ev.Run, table []*fn, stride int) {
 			})
 		}
 	})
+	// single-substitution sweep with wrong-typed arguments: every row, every arity, every position replaced by
+	// each odd value, the other positions at their first pool value. Oracle: no Go panic (nothing else is claimed).
+	odd := []val{vnil, vi(1), vf(0.5), vs("a"), vb([]byte("a")), vB(true), vl(vs("a")), vm("a", vi(1)), {K: 'E'}}
+	var sweep [][2]any
+	for _, f := range table {
+		for n := f.min; n <= len(f.params); n++ {
+			for pos := 0; pos < n; pos++ {
+				if f.method && pos == 0 {
+					continue // the receiver's type selects the method table
+				}
+				for _, o := range odd {
+					a := append([]val{}, benign(f, n)...)
+					a[pos] = o
+					sweep = append(sweep, [2]any{f, a})
+				}
+			}
+		}
+		// one argument too many / too few
+		if len(f.params) > 0 {
+			a := append(append([]val{}, benign(f, len(f.params))...), vs("a"))
+			sweep = append(sweep, [2]any{f, a})
+			if f.min > 0 && !(f.method && f.min == 1) {
+				sweep = append(sweep, [2]any{f, a[:f.min-1]})
+			}
+		}
+	}
+	ev.ParFor(len(sweep), func(i int) {
+		f, a := sweep[i][0].(*fn), sweep[i][1].([]val)
+		got, pan := callObject(f, a)
+		r.Eval(1)
+		if pan != "" {
+			sig, obs := verdict(f, silent(), got, pan)
+			col.Report(sig, fmt.Sprintf("object: %s -> %s (wrong-typed / wrong number of arguments)", describe(f, a), ev.Clip(obs, 160)), wcase{"W", "object", f.target(), toks(a)}, obs, "an error value")
+			r.Outcome("sweep|" + f.target() + "|panic")
+			return
+		}
+		r.Outcome("sweep|" + ev.Clip(canonObj(got), 8))
+	})
+	r.Set("wrong_type_sweep_calls", len(sweep))
 	r.Set("wrapper_rows", len(table))
 	r.Set("wrapper_tuples", total)
 	r.Set("wrapper_tuples_by_group", perGroup)
